@@ -58,19 +58,29 @@ def run(ck):
     # ------------------------------------------------------------------ C20.2 / C20.3 producers
     layouts = []
     for fn in finders:
-        paths = explore(ck, fn, unroll=(1,), max_paths=4000)
+        paths = explore(ck, fn, unroll=(1,), max_paths=4000, inline=1)
         appends = {}
         for pa in paths:
             for e in pa.events:
                 if e.kind != "call":
                     continue
                 t = e.term
-                if t[0] == "mcall" and t[2] == "append" and t[1][0] == "idx" and t[1][2][0] == "c" \
-                        and isinstance(t[1][2][1], str) and len(t[3]) == 1 and t[3][0][0] == "list":
-                    key = t[1][2][1]
-                    appends.setdefault((key, e.lineno), (t, e, pa))
+                if not (t[0] == "mcall" and t[2] == "append" and t[1][0] == "idx" and len(t[3]) == 1 and t[3][0][0] == "list"):
+                    continue
+                k = t[1][2]
+                if k[0] == "c" and isinstance(k[1], str):
+                    appends.setdefault((k[1], e.lineno), (t, e, pa, e.facts or {}))
+                elif k[0] == "select" and k[2][0] == "c" and k[3][0] == "c":
+                    # the list key is chosen by a (helper's) conditional expression: one virtual append per arm, each under
+                    # the arm's condition; the label slot is specialised the same way
+                    for arm, tv in ((k[2], True), (k[3], False)):
+                        facts = dict(e.facts or {})
+                        T.add_fact(facts, k[1], tv)
+                        rec = tuple(arm if x == k else x for x in t[3][0][1])
+                        t2 = (t[0], (t[1][0], t[1][1], arm), t[2], (("list", rec),) + tuple(t[3][1:])) + tuple(t[4:])
+                        appends.setdefault((arm[1], e.lineno), (t2, e, pa, facts))
         ck.floor(f"C20.2 record appends in {fn.module.name}", len(appends), 2)
-        for (key, line), (t, e, pa) in sorted(appends.items()):
+        for (key, line), (t, e, pa, efacts) in sorted(appends.items()):
             rec = t[3][0][1]
             construct = f"{fn.module.name.split('.')[-1]}.{fn.name}:{key}"
             w = where(fn, e.node)
@@ -107,7 +117,7 @@ def run(ck):
             diff = want
             gate = None
             sign = None
-            for f, tv in (e.facts or {}).items():
+            for f, tv in efacts.items():
                 if f[0] != "lt":
                     continue
                 items = dict(T.to_poly(f[1]))
@@ -118,7 +128,7 @@ def run(ck):
                 elif rest == diff:
                     sign = (const, tv)                                          # diff + T' < 0  is tv
                 elif rest == T.p_neg(diff) and sign is None and not (
-                        ("lt", T.p_neg(f[1])) in (e.facts or {})):
+                        ("lt", T.p_neg(f[1])) in efacts):
                     # -diff + k < 0  <=>  diff > k : the test written the other way round (not a derived fact)
                     sign = (const, tv, "gt")
                 if sign is not None and len(sign) == 2:
